@@ -155,7 +155,7 @@ def run(P, rep, tier):
             if isinstance(o, AObj) and isinstance(o.attrs.get('options'), ADict) and o.cls.name not in ('DiffXChangeSection', 'DiffXFileSection'):
                 o.attrs['options'].open = True
                 o.attrs['options'].taint = frozenset(['INPUT', 'OPTKEY'])
-            for k in ('_content',):
+            for k in (D.content_slot(),):
                 if isinstance(o, AObj) and isinstance(o.attrs.get(k), Unk):
                     o.attrs[k].facts.add('truthy')
         saved = dict(I.stubs)
@@ -199,11 +199,8 @@ def run(P, rep, tier):
     # ---- R2 default agreement --------------------------------------------------------------------
     r2 = rep.rule('C06-R2', 'writer defaults that are rendered into headers are passed explicitly by the DOM writer', reference=6)
     rendered = {'encoding', 'indent', 'line_endings', 'mimetype', 'format', 'type', 'version', 'length'}
-    remap = {}
-    try:
-        remap = P.fold_class_attr(dw, '_remapped_options')
-    except Unfoldable:
-        pass
+    from sa.props.c05 import find_remap_table
+    remap = find_remap_table(P, dw)
     inv = {}
     for sec, mp in (remap or {}).items():
         for k, v in mp.items():
